@@ -13,7 +13,9 @@ let request_fields k = [fld ":method" "GET"; fld ":scheme" "https"; fld ":author
 let response_fields k = [fld ":status" "200"] @ extra k 42
 let trailer_fields k = extra k 0
 
-let peer_of s = match s with
+(* P token: none | - | <n>, optionally followed by @f @m @l @c (layout of the companion parameters: irrelevant here) *)
+let strip_layout s = match String.index_opt s '@' with Some i -> String.sub s 0 i | None -> s
+let peer_of s = match strip_layout s with
   | "none" -> None
   | "-" -> Some None
   | v -> Some (Some (n_of_string v))
@@ -41,14 +43,25 @@ let send_s tag = function
 
 let handle ws = match ws with
   | ["lim.rx"; role; kind; l; p; h] ->
-    let own = n_of_string l in
+    let configured = n_of_string l in
     let ps = peer_of p in
     let bs = bytes_of_hex h in
+    let flags = String.split_on_char '.' kind in
+    let kind = List.hd flags in
+    let has f = List.mem f flags in
+    (* the limit the handle under test carries: the configured one, by the flow read from the source *)
+    let cloned = if has "clone0" then Some None else if has "clone1" then Some ps else None in
+    let handle = (match role, kind with
+      | "srv", "hdr" -> HServerRequest
+      | "srv", _ -> HServer (has "split")
+      | _, _ -> HClient (cloned, has "split")) in
+    let own = own_at handle configured ps in
     let o = (match role, kind with
       | "srv", "hdr" -> server_recv_request own ps bs
       | "cli", "hdr" -> client_recv_response own ps bs
       | "srv", _ -> server_recv_trailers own ps bs
       | _, _ -> client_recv_trailers own ps bs) in
+    let own = configured in
     let spec = (match rfc_decode_static bs with
       | None -> "**"
       | Some fs ->
@@ -61,7 +74,7 @@ let handle ws = match ws with
     obs_s o ^ " | " ^ spec
   | ["lim.tx"; role; own; p; ops] ->
     let own = n_of_string own in
-    let pv = if p = "-" then None else Some (n_of_string p) in
+    let pv = (match peer_of p with Some v -> v | None -> None) in
     let ps = ref None in
     let have_stream = ref (role = "srv") in
     let m = Buffer.create 64 and s = Buffer.create 64 in
@@ -86,11 +99,14 @@ let handle ws = match ws with
   | ["lim.txw"; "cli"; own; p; k] ->
     (* the SETTINGS are stored before the stream opens, i.e. before the limit is read and compared *)
     let own = n_of_string own in
-    let pv = if p = "-" then None else Some (n_of_string p) in
+    let pv = (match peer_of p with Some v -> v | None -> None) in
     let ps = Some pv in
     let fs = request_fields (int_of_string k) in
     let spec = if N.leb (section_size fs) (spec_limit ps) then "W:ok:+" else "W:err:s:-:HeaderTooBig:-" in
     "ok " ^ send_s "W" (send_request own ps fs) ^ " | ok " ^ spec
+  | ["lim.adv"; _; l] ->
+    (* what the peer is told is the configured value (frame::Settings itself is C13's subject) *)
+    "adv=" ^ l ^ " | adv=" ^ l
   | ["q.ref"; h] ->
     (match rfc_decode_static (bytes_of_hex h) with
      | Some fs -> "ok " ^ string_of_fields fs
